@@ -162,6 +162,13 @@ def euler_step_terms(system, st, max_paths=64, fields=("state", "k", "D", "edge_
         r = initialize(I, kind, named_s)
         if r != 0:
             raise HarnessError("initialize returned %r" % (r,))
+        # the state is arbitrary, so this step stands for ANY step - provided the per-step scratch holds whatever an earlier
+        # step left there: the derivative buffer starts with arbitrary contents
+        obj = algo(I, kind)
+        if "mesh_dxdt" in obj.fields:
+            v = obj.field("mesh_dxdt")
+            for k in range(len(v.elems)):
+                v.elems[k] = I.fresh("stale_dxdt")
         I.call_fn("engineexport_iterate", [])
         return fetch_output(I, ns, nc)
 
